@@ -191,6 +191,7 @@ type State struct {
 	labelled map[string]*Term // asserted facts by label
 	schemas []*schema // quantified facts valid on this path (loop invariants, callee postconditions)
 	written map[*Cell]bool
+	occ     map[string]int // bounded equivalence runs: occurrences of each kind of unknown on this path
 }
 
 func newState() *State {
@@ -209,6 +210,7 @@ func (s *State) fork() *State {
 		version: s.version,
 		logMark: s.logMark,
 		unfolded: s.unfolded,
+		occ:     s.occ,
 		nalloc:  s.nalloc,
 		cutMark: s.cutMark,
 		wits:    s.wits[:len(s.wits):len(s.wits)],
